@@ -75,17 +75,17 @@ func opSubject(op string) string {
 
 // caseT is one explored case (also the replay artefact).
 type caseT struct {
-	Start string   `json:"start,omitempty"` // "" = empty database | pre = subject A exists and has a service
-	Methods string `json:"methods,omitempty"` // enabled DID methods: "" = web,nuts | nuts | web
-	Nuts  string   `json:"nuts"`            // scripted | real
-	Seq   []string `json:"seq"`             // operation sequence
-	At    int      `json:"at"`              // index of the operation that is cut
-	Step  int      `json:"step"`            // step number inside that operation (numbering of the fault-free twin)
-	Ext   string   `json:"ext,omitempty"`   // cut at this named non-SQL step instead (e.g. "nuts.Commit")
-	Mode  string   `json:"mode"`            // error | stop | race
-	Race  string   `json:"race,omitempty"`  // mode race: boundary at which an un-aged sweep runs inside the operation
-	Sweep string   `json:"sweep"`           // plain | iserr (first aged sweep gets an IsCommitted error from did:nuts)
-	Label string   `json:"label,omitempty"`
+	Start   string   `json:"start,omitempty"`   // "" = empty database | pre = subject A exists and has a service
+	Methods string   `json:"methods,omitempty"` // enabled DID methods: "" = web,nuts | nuts | web
+	Nuts    string   `json:"nuts"`              // scripted | real
+	Seq     []string `json:"seq"`               // operation sequence
+	At      int      `json:"at"`                // index of the operation that is cut
+	Step    int      `json:"step"`              // step number inside that operation (numbering of the fault-free twin)
+	Ext     string   `json:"ext,omitempty"`     // cut at this named non-SQL step instead (e.g. "nuts.Commit")
+	Mode    string   `json:"mode"`              // error | stop | race
+	Race    string   `json:"race,omitempty"`    // mode race: boundary at which an un-aged sweep runs inside the operation
+	Sweep   string   `json:"sweep"`             // plain | iserr (first aged sweep gets an IsCommitted error from did:nuts)
+	Label   string   `json:"label,omitempty"`
 }
 
 // ------------------------------------------------------------------ environment ("the network")
